@@ -41,7 +41,7 @@ fn root() -> String {
 }
 
 fn families() -> Vec<Box<dyn DynFamily>> {
-    vec![Box::new(fam::a1::A1), Box::new(fam::a2::A2), Box::new(fam::a3::A3), Box::new(fam::a4::A4), Box::new(fam::a5::A5), Box::new(fam::a6::A6)]
+    vec![Box::new(fam::a1::A1), Box::new(fam::a2::A2), Box::new(fam::a3::A3), Box::new(fam::a4::A4), Box::new(fam::a5::A5), Box::new(fam::a6::A6), Box::new(fam::a7::A7)]
 }
 
 fn level_of(prop: &str) -> &'static str {
